@@ -24,7 +24,11 @@ namespace Ecal.Props.C19
 open Ecal.Bridge
 
 def shape : Shape :=
-  { recovers := Ecal.Gen.C19.recoverFact.notRefuted, arityChecked := Ecal.Gen.C19.arityFact.notRefuted }
+  { recovers := Ecal.Gen.C19.recoverFact.notRefuted, arityChecked := Ecal.Gen.C19.arityFact.notRefuted,
+    nilPanicReported := Ecal.Gen.C19.nilPanicFact.notRefuted }
+
+/-- whether `executeFunction` handles the returned error value safely (established or assumed) -/
+def errGuarded : Bool := Ecal.Gen.C19.errorValueFact.notRefuted
 
 /-- whether plugin functions are registered behind the adapter (established or assumed) -/
 def pluginViaAdapter : Bool := Ecal.Gen.C19.pluginFact.notRefuted
@@ -37,6 +41,18 @@ theorem shape_recovers : shape.recovers = true := by decide
 /-- Second side obligation: it is not refuted that surplus arguments are rejected by an explicit
     comparison with `NumIn()` before `Call`. (Refuted by: no such comparison in `Run` or its helpers.) -/
 theorem shape_arity_checked : shape.arityChecked = true := by decide
+
+/-- Side obligation: it is not refuted that the deferred function also reports a panic for which
+    `recover()` returned nil (`panic(nil)` under GODEBUG panicnil=1, the semantics of every binary built
+    from a main module declaring go < 1.21 — /repo's go.mod says go 1.12). (Refuted by: the assignment
+    of the error result is guarded by `recovered != nil` alone.) -/
+theorem shape_nil_panic_reported : shape.nilPanicReported = true := by decide
+
+/-- Side obligation (interpreter/rt_identifier.go, `executeFunction`): it is not refuted that the error
+    value a function returned is only asked for its text under a recover and that nil runtime-error
+    pointers are not dereferenced. (Refuted by: `err.Error()` on Run's error in a function without a
+    recovering defer.) -/
+theorem error_value_guarded : errGuarded = true := by decide
 
 /-- `o` is an error made by the bridge itself (not by the wrapped function): `Run` returned
     `(nil, err)` with `err` one of: too many parameters, wrong parameter type, recovered panic. -/
@@ -54,15 +70,34 @@ theorem bridge_total (oob : IntKind → Num → Int) (t : Target) (args : List V
   split at h
   · subst h; intro hh; cases hh
   · rw [shape_recovers] at h; subst h; intro hh; cases hh
+  · simp [shape_recovers, shape_nil_panic_reported] at h; subst h; intro hh; cases hh
 
-/-- Totality as the ECAL program sees it (`executeFunction`): a value or a catchable runtime error. -/
-theorem interpreter_never_crashes (oob : IntKind → Num → Int) (t : Target) (args : List Val) :
-    (∃ r, executeFunction (run shape oob t args) = .value r) ∨
-      executeFunction (run shape oob t args) = .runtimeError := by
+/-- Totality as the ECAL program sees it — `executeFunction`, including what it does with the error
+    value OUTSIDE `Run`'s recover scope (`err.Error()`, `AddTrace`): for every kind of error value a Go
+    function can return (also one whose `Error()` panics, a typed nil pointer, a nil `*RuntimeError`) the
+    program gets a value or a catchable runtime error. -/
+theorem interpreter_never_crashes (oob : IntKind → Num → Int) (kind : Val → ErrKind) (t : Target)
+    (args : List Val) :
+    (∃ r, executeFunction errGuarded kind (run shape oob t args) = .value r) ∨
+      executeFunction errGuarded kind (run shape oob t args) = .runtimeError := by
   have h := bridge_total oob t args _ rfl
+  rw [error_value_guarded]
   cases hr : run shape oob t args with
   | escaped => exact absurd hr h
-  | done r e => cases e <;> simp [executeFunction]
+  | done r e =>
+    cases e with
+    | none => simp [executeFunction]
+    | some e =>
+      cases e with
+      | bridge _ => simp [executeFunction]
+      | recovered => simp [executeFunction]
+      | func v => cases hk : kind v <;> simp [executeFunction, hk]
+
+/-- Unguarded, an error value whose `Error()` panics crashes the interpreter after `Run` has returned:
+    the model can express the failure the obligation excludes. -/
+example : executeFunction false (fun _ => .errorPanics)
+    (run shape (fun _ _ => 0) (.fn ⟨[], false, [.error]⟩ (fun _ => .ret [.foreign (.other 0) "typed nil"])) [])
+    = .crash := by decide
 
 /-- Without the deferred `recover` the theorem is false: the model is able to express the crash. -/
 example : run { shape with recovers := false } (fun _ _ => 0)
@@ -228,6 +263,44 @@ example : IsBridgeError (run shape (fun _ _ => 0) (.fn ⟨[.f64, .str], false, [
     [.f64 (.fin 1 0), .f64 (.fin 2 0)]) :=
   wrong_kind_is_error _ _ _ 1 .str (.f64 (.fin 2 0)) rfl rfl (by decide) _
 
+/-- **Wrong kind for a list parameter.** A `[]interface{}` parameter that is not the variadic one lets
+    every value through the bridge's own check, but reflect refuses all but a `[]interface{}`: a
+    number, string, map … passed for it ends in a bridge error and the function is not run. -/
+theorem wrong_kind_for_list_is_error (oob : IntKind → Num → Int) (sig : Sig) (args : List Val)
+    (i : Nat) (a : Val) (hp : sig.params[i]? = some Ty.list) (ha : args[i]? = some a)
+    (hnv : sig.variadic = false) (hbad : a.ty ≠ some Ty.list) (body : List Val → BodyOut) :
+    IsBridgeError (run shape oob (.fn sig body) args) := by
+  have hr : reaches oob sig args = none := by
+    unfold reaches
+    cases hb : buildArgs true oob sig.params args with
+    | ok f =>
+      by_cases hc : callCheck sig f = true
+      · exfalso
+        have hfi := buildArgs_list_unchanged hb i a hp ha
+        simp [callCheck, hnv] at hc
+        have := allAssignable_get hc i a Ty.list hfi hp
+        cases hty : a.ty with
+        | none => simp [valAssignable, hty] at this
+        | some t =>
+          simp [valAssignable, hty, assignable, Ty.list] at this
+          exact hbad (by rw [hty, this])
+      · simp [hc]
+    | _ => rfl
+  obtain ⟨e, he, hrun⟩ := not_reaching_is_error hr
+  exact ⟨e, hrun body, he⟩
+
+example : IsBridgeError (run shape (fun _ _ => 0) (.fn ⟨[.list], false, [.list]⟩ .ret) [.str "s:61"]) :=
+  wrong_kind_for_list_is_error _ _ _ 0 (.str "s:61") rfl rfl rfl (by decide) _
+
+/-- Numeric variadics (`...int`, `...float64`) accept no number at all: the parameter type is the
+    slice, `convertNumber` leaves the float64 unchanged and the type comparison fails. (A limitation
+    of the code, inside the property: an error, no crash.) -/
+theorem numeric_variadic_rejects_numbers (oob : IntKind → Num → Int) (t : Ty) (x : Num)
+    (ht : t ≠ .iface) : checkArg oob (.slice t) (.f64 x) = .error := by
+  have h1 : ¬ (Ty.f64 = Ty.slice t) := by intro h; cases h
+  have h2 : ¬ (Ty.slice t = Ty.list) := by intro h; simp [Ty.list] at h; exact ht h
+  simp [checkArg, convertNumber, Val.ty, h1, h2, Ty.isInterface]
+
 /-- **NULL.** A NULL anywhere in the argument vector always ends in a bridge error (type error,
     or reflect's nil-type / zero-Value panic, recovered) and the function is not run — for every
     signature, including `interface{}` and `[]interface{}` parameters. -/
@@ -247,14 +320,17 @@ example : IsBridgeError (run shape (fun _ _ => 0) (.fn ⟨[.slice .iface], true,
 
 /-! ## Numbers -/
 
-/-- **Numeric arguments arrive exactly.** Whenever the call reaches the function: an ECAL number
-    that denotes the integer `n`, passed for a parameter of integer kind `k` whose range contains
-    `n`, is received as exactly the Go value `k(n)`; for a `float64` parameter the number is received
-    unchanged. (No 2^53 bound is needed in this direction: the ECAL number already *is* a float64.) -/
+/-- **Numeric arguments arrive converted.** Whenever the call reaches the function: an ECAL number
+    whose truncation towards zero is `n` (1.5 ↦ 1, -0.5 ↦ 0, an integral number ↦ itself), passed for
+    a parameter of integer kind `k` whose range contains `n`, is received as exactly the Go value
+    `k(n)`; for a `float64` parameter the number is received unchanged; for a `float32` parameter as
+    its IEEE rounding `toF32` (see `float32_exact_when_representable`). (No 2^53 bound is needed in
+    this direction: the ECAL number already *is* a float64.) -/
 theorem numeric_in_range_exact {oob : IntKind → Num → Int} {sig : Sig} {args f : List Val}
     (h : reaches oob sig args = some f) (i : Nat) (x : Num) (ha : args[i]? = some (.f64 x)) :
-    (∀ k n, sig.params[i]? = some (.int k) → x.IsInt n → k.inRange n = true → f[i]? = some (.int k n)) ∧
-    (sig.params[i]? = some .f64 → f[i]? = some (.f64 x)) := by
+    (∀ k n, sig.params[i]? = some (.int k) → x.trunc = some n → k.inRange n = true → f[i]? = some (.int k n)) ∧
+    (sig.params[i]? = some .f64 → f[i]? = some (.f64 x)) ∧
+    (sig.params[i]? = some .f32 → f[i]? = some (.f32 x.toF32)) := by
   have hb : buildArgs true oob sig.params args = .ok f := by
     unfold reaches at h
     cases hb : buildArgs true oob sig.params args with
@@ -262,6 +338,25 @@ theorem numeric_in_range_exact {oob : IntKind → Num → Int} {sig : Sig} {args
     | error e => simp [hb] at h
     | panic => simp [hb] at h
   exact buildArgs_numeric_exact hb i x ha
+
+/-- `float32(f)` is exact whenever `f = m·2^e` fits: at most 24 significant bits, last bit not below
+    2^-149, magnitude below 2^128 — every integer up to 2^24, 1.5, 2^31, … arrive unchanged. -/
+theorem float32_exact_when_representable (m e : Int) (h24 : bitLen m.natAbs ≤ 24) (hlo : -149 ≤ e)
+    (hhi : (bitLen m.natAbs : Int) + e ≤ 128) : (Num.fin m e).toF32 = .fin m e := by
+  have h1 : ¬ ((bitLen m.natAbs : Int) > 24) := by omega
+  have h2 : ¬ (e < -149) := by omega
+  have h3 : ¬ ((bitLen m.natAbs : Int) + e > 128) := by omega
+  simp [Num.toF32, Num.f32Exp, h1, h2, h3]
+
+/-- 16777217 = 2^24+1 is not representable: it is rounded to even (2^24), 2^24+3 to 2^24+4; 1e-46-sized
+    values underflow to (signed) zero; 2^128 overflows to +Inf. -/
+example : (Num.fin 16777217 0).toF32 = .fin 8388608 1 ∧ (Num.fin 16777219 0).toF32 = .fin 8388610 1 ∧
+    (Num.fin (-1) (-160)).toF32 = .negZero ∧ (Num.fin 3 (-150)).toF32 = .fin 2 (-149) ∧
+    (Num.fin 1 128).toF32 = .inf false := by decide
+
+/-- A fractional number for an integer parameter is truncated towards zero: 1.5 ↦ int8(1), -0.5 ↦ uint8(0). -/
+example : reaches (fun _ _ => 77) ⟨[.int .int8, .int .uint8], false, []⟩ [.f64 (.fin 3 (-1)), .f64 (.fin (-1) (-1))]
+    = some [.int .int8 1, .int .uint8 0] := by decide
 
 /-- **Numeric results come back exactly**: a Go integer result of any integer kind with
     |n| ≤ 2^53 is delivered as the ECAL number n; float32/float64 results as the same number. -/
@@ -271,20 +366,42 @@ theorem numeric_result_exact :
     (∀ x, convertResultNumber .f64 (.f64 x) = .f64 x) := by
   refine ⟨?_, fun _ => rfl, fun _ => rfl⟩
   intro k n h
-  simp [convertResultNumber, numericOf, Num.ofInt, h]
+  simp [convertResultNumber, Ty.isInterface, numericOf, Num.ofInt, h]
 
 /-- Every result of a numeric static type is delivered as an ECAL number (a float64), whatever
     its size: no Go integer or float32 leaks into the ECAL program through a numerically typed result.
     (`foreign` stands for values of non-primitive types only.) -/
 theorem numeric_result_is_number (t : Ty) (v : Val) (ht : t.isNumeric = true) (hv : v.ty = some t)
     (hw : ∀ t' c, v ≠ .foreign t' c) : ∃ x, convertResultNumber t v = .f64 x := by
-  cases t <;> simp [Ty.isNumeric] at ht <;> cases v <;> simp_all [Val.ty, convertResultNumber, numericOf]
+  cases t <;> simp [Ty.isNumeric] at ht <;> cases v <;> simp_all [Val.ty, convertResultNumber, Ty.isInterface, numericOf]
+
+/-- … also through a result declared as an interface (`interface{}`: every plugin function): the
+    number in it is converted by its own kind. -/
+theorem iface_result_is_number (t : Ty) (v : Val) (ht : t.isNumeric = true) (hv : v.ty = some t)
+    (hw : ∀ t' c, v ≠ .foreign t' c) : ∃ x, convertResultNumber .iface v = .f64 x := by
+  cases t <;> simp [Ty.isNumeric] at ht <;> cases v <;> simp_all [Val.ty, convertResultNumber, Ty.isInterface, numericOf]
+
+/-- **Through `Run`, for every position of a multi-result.** When the call reaches a function without
+    trailing error whose body returns `vals` (one per declared result), `Run` delivers
+    `convertResultNumber` of each — so every position whose static type is numeric and whose value is
+    of that type is an ECAL number. (With a trailing error: `trailing_error_delivered`.) -/
+theorem numeric_results_delivered {oob : IntKind → Num → Int} {sig : Sig} {args f vals : List Val}
+    {body : List Val → BodyOut} (h : reaches oob sig args = some f) (hb : body f = .ret vals)
+    (hl : vals.length = sig.results.length) (hne : sig.results.getLast? ≠ some Ty.error) :
+    run shape oob (.fn sig body) args = .done (packRet (List.zipWith convertResultNumber sig.results vals)) none ∧
+    ∀ (i : Nat) t v, sig.results[i]? = some t → vals[i]? = some v → t.isNumeric = true → v.ty = some t →
+      (∀ t' c, v ≠ .foreign t' c) →
+      ∃ x, (List.zipWith convertResultNumber sig.results vals)[i]? = some (.f64 x) := by
+  refine ⟨by rw [reaching_runs_body h, hb]; simp [finish, convertResults_no_error vals sig.results hl hne], ?_⟩
+  intro i t v ht hv hnum hty hw
+  obtain ⟨x, hx⟩ := numeric_result_is_number t v hnum hty hw
+  exact ⟨x, by simp [List.getElem?_zipWith, ht, hv, hx]⟩
 
 /-- Defined types (`type Duration int64`): a result of a defined numeric type is converted by its
     Kind like the plain type — exactly up to 2^53. -/
 theorem named_numeric_result_exact (id : Nat) (k : IntKind) (n : Int) (h : n.natAbs ≤ 2 ^ 53) :
     convertResultNumber (.named id (.int k)) (.named id (.int k n)) = .f64 (.fin n 0) := by
-  simp [convertResultNumber, numericOf, Num.ofInt, h]
+  simp [convertResultNumber, Ty.isInterface, numericOf, Num.ofInt, h]
 
 /-- … but a *parameter* of a defined numeric type never accepts an ECAL number: `convertNumber`
     produces the plain `intN`/`floatN` and the identity comparison of the types then fails. (A
@@ -310,7 +427,7 @@ theorem numeric_roundtrip_echo (oob : IntKind → Num → Int) (k : IntKind) (n 
       valAssignable, assignable]
   refine ⟨h1, ?_⟩
   rw [reaching_runs_body h1, hlog]
-  simp [finish, convertResults, convertResultNumber, numericOf, Num.ofInt, hn, packRet]
+  simp [finish, convertResults, convertResultNumber, Ty.isInterface, numericOf, Num.ofInt, hn, packRet]
 
 example : run shape (fun _ _ => 0) (.fn ⟨[.int .uint8], false, [.int .uint8]⟩ .ret) [.f64 (.fin 255 0)]
     = .done (.one (.f64 (.fin 255 0))) none :=
@@ -343,6 +460,23 @@ example : run shape (fun _ _ => 0)
 example : run shape (fun _ _ => 0)
     (.fn ⟨[], false, [.int .int, .error]⟩ (fun _ => .ret [.int .int 5, .nil])) []
     = .done (.one (.f64 (.fin 5 0))) none := by decide
+
+/-- **Panicking function, for the arguments at hand.** If the call reaches the function and its body
+    panics on what it receives — also with `panic(nil)` under the pre-1.21 semantics, where `recover()`
+    returns nil — `Run` returns `(nil, error)`, never a silent NULL. -/
+theorem panicking_body_is_error {oob : IntKind → Num → Int} {sig : Sig} {args f : List Val}
+    (hr : reaches oob sig args = some f) (body : List Val → BodyOut)
+    (hp : body f = .panic ∨ body f = .panicNil) :
+    run shape oob (.fn sig body) args = .done (.one .nil) (some .recovered) := by
+  rw [reaching_runs_body hr]
+  rcases hp with hp | hp <;> simp [hp, finish, shape_recovers, shape_nil_panic_reported]
+
+example : run shape (fun _ _ => 0) (.fn ⟨[], false, []⟩ (fun _ => .panicNil)) []
+    = .done (.one .nil) (some .recovered) := by decide
+
+/-- With `if r := recover(); r != nil` alone a `panic(nil)` would come back as a silent NULL. -/
+example : run { shape with nilPanicReported := false } (fun _ _ => 0) (.fn ⟨[], false, []⟩ (fun _ => .panicNil)) []
+    = .done (.one .nil) none := by decide
 
 /-- **Panicking function.** If the function body panics on the arguments it receives (or on every
     input), the call returns `(nil, error)`: a recovered-panic error if the body was reached, a
@@ -399,18 +533,6 @@ example : run shape (fun _ _ => 0)
 `Ecal.Reentry.eval` is the reference semantics the correspondence run holds `rt_identifier.go`
 (`resolveFunction`) against: programs whose bridged call sites are re-entered through their own
 argument expressions, one AST evaluated repeatedly and from several goroutines. -/
-
-/-- **Arguments arrive.** Whatever the evaluation of the argument expressions does — recursion that
-    re-enters this very call site any number of times, other bridged calls, anything they log — the
-    bridged Go function of this activation is run on the values `vs` of ITS OWN argument expressions,
-    and what it receives is appended to the log after everything its arguments caused. -/
-theorem bridged_call_receives_own_arguments (fns : List Reentry.FnDef) (fuel : Nat)
-    (env : List (String × Int)) (f : String) (args : Reentry.Args) (log log' : Reentry.Log)
-    (vs : List Int) (r : Int) (recv : List Val)
-    (ha : Reentry.evalArgs fns fuel env args log = some (vs, log'))
-    (hb : Reentry.bridged f vs = some (r, recv)) :
-    Reentry.eval fns (fuel + 1) env (.callB f args) log = some (r, log' ++ [recv]) := by
-  simp [Reentry.eval, ha, hb]
 
 /-- What the Go function receives for in-range integers is exactly those integers, in the
     parameter's kind: `radd3(a int, b int64, c float64)` called with the values 2, 3, 4. -/
